@@ -231,3 +231,68 @@ func c19Parity(c *Ctx) {
 		}
 	}
 }
+
+// c19Matrix (rule C19-R6.matrix): matrixLine(n, m) itself, folded on constants by the interpreter, equals the
+// independent transcription for every line 1..40 of every matrix of 1..40 fragments (and of 63..65 and 127..129
+// fragments, around the powers of two where the modulus changes). The parity rule R6 reaches only the first few lines
+// of each matrix; a defect of the re-draw logic can show first in a later line (line 10 for 8 fragments).
+func c19Matrix(c *Ctx) {
+	r := c.Run
+	const rule = "R6.matrix"
+	const pk = "applayer/fragmentation"
+	r.Rule(rule, "matrixLine(n, m), evaluated on constants by E1, equals the independently transcribed TS004 matrix line for n = 1..40 and m = 1..40, 63..65, 127..129")
+	ms := []int{}
+	for m := 1; m <= 40; m++ {
+		ms = append(ms, m)
+	}
+	ms = append(ms, 63, 64, 65, 127, 128, 129)
+	maxN := 40
+	if c.Tier == "thorough" {
+		maxN = 200
+	}
+	for _, m := range ms {
+		in := absint.NewInterp(c.Prog)
+		d := in.D
+		bad, undec := "", ""
+		for n := 1; n <= maxN && bad == "" && undec == ""; n++ {
+			var res []absint.Value
+			if err := in.Try(func() {
+				res = in.CallFunc(pk, "matrixLine", d.Const(int64(n), absint.IntBits, true), d.Const(int64(m), absint.IntBits, true))
+			}); err != nil {
+				if pe, ok := err.(absint.Panic); ok {
+					bad = fmt.Sprintf("line %d: panics: %s", n, pe.Why)
+				} else {
+					undec = err.Error()
+				}
+				break
+			}
+			sl, ok := res[0].(*absint.Slice)
+			want := c19RefMatrixLine(n, m)
+			if !ok || sl.Len() != len(want) {
+				bad = fmt.Sprintf("line %d has the wrong length", n)
+				break
+			}
+			for k := range want {
+				b, isB := sl.At(k).V.(*absint.Bits)
+				v, isC := int64(0), false
+				if isB {
+					v, isC = d.ConstVal(b)
+				}
+				if !isC {
+					undec = fmt.Sprintf("line %d entry %d is not a constant", n, k)
+					break
+				}
+				if int(v) != want[k] {
+					bad = fmt.Sprintf("line %d entry %d is %d, the specification's line is %v", n, k, v, want)
+					break
+				}
+			}
+		}
+		key := fmt.Sprintf("%s.matrixLine/m%d", pk, m)
+		if undec != "" {
+			r.Unknown(rule, key, "", "inside the interpreter's subset", undec)
+			continue
+		}
+		r.Check(bad == "", rule, key, "", fmt.Sprintf("lines 1..%d of the %d-fragment matrix equal the specification", maxN, m), bad, true)
+	}
+}
